@@ -70,3 +70,21 @@ def size(x):
 def contains(a, b):
     _rec("contains", (a, b))
     return _ct().BoolType(True)
+
+
+def size_bad(x):
+    """an override of the built-in size() that rejects its argument"""
+    _rec("size#bad", (x,))
+    raise TypeError("this size() does not take that")
+
+
+def contains_bad(a, b):
+    _rec("contains#bad", (a, b))
+    from celpy.evaluation import CELEvalError
+
+    return CELEvalError("this contains() fails")
+
+
+def string_bad(x):
+    _rec("string#bad", (x,))
+    raise AttributeError("no such attribute")
